@@ -20,7 +20,7 @@ ASSUMPTIONS = [
     "existence queries reject corruption on local stores only (the base store's query is existence-only, as the statement says)",
 ]
 MONITORS = "verdicts of check / oids_exist / checkout / verifying add compared with the harness's own ground truth of which objects were tampered; file presence and mode bits re-read from disk"
-REQUIRED_COUNTERS = ["relinking_checkouts_over_intact_copies", "verify_transfer_rounds_by_configuration_only", "re_adds_of_tampered_object", "probes_with_removal_denied", "big_existence_queries", "verify_transfer_rounds", "verify_add_over_intact_object", "read_only_handle_probes", "used_intact_before_tamper", "probe/check", "probe/oids_exist", "probe/checkout", "probe/verify-add", "state/warm", "state/cold", "state/none",
+REQUIRED_COUNTERS = ["tree_level_checks", "verifying_adds_through_a_copied_store_object", "relinking_checkouts_over_intact_copies", "verify_transfer_rounds_by_configuration_only", "re_adds_of_tampered_object", "probes_with_removal_denied", "big_existence_queries", "verify_transfer_rounds", "verify_add_over_intact_object", "read_only_handle_probes", "used_intact_before_tamper", "probe/check", "probe/oids_exist", "probe/checkout", "probe/verify-add", "state/warm", "state/cold", "state/none",
                      "tampered_objects", "intact_objects_checked", "store/local", "store/base", "tamper/truncate", "tamper/append",
                      "tamper/same-length", "tamper/diff-length", "tamper/rename", "unprotected_intact_checked"]
 
@@ -105,6 +105,12 @@ def run_shard(ctx):
                 wrong = H("md5", files[k] + b"other")
                 via_cfg = rng.random() < 0.5
                 vodb = env.odb_of_class(cls, root, state=state, verify=True) if via_cfg else env.odb_of_class(cls, root, state=state)
+                if via_cfg and state is None and rng.random() < 0.4:
+                    # the store object reaches the adder as a deep copy (what DataIndex.view() does with its storage map)
+                    import copy as _copy
+
+                    vodb = _copy.deepcopy(vodb)
+                    res.count("verifying_adds_through_a_copied_store_object")
                 errs = []
                 kw = {} if via_cfg else {"verify": True}
                 vodb.add([src], fs, [wrong], on_error=(lambda o, e: errs.append(o)) if rng.random() < 0.5 else None, **kw)
@@ -276,6 +282,31 @@ def run_shard(ctx):
                         res.count("loud_permission_errors")
                     except FileNotFoundError:
                         res.violation("corrupt-object-check-filenotfound", "check raised FileNotFoundError for an existing tampered object", case=case, detail=cfg)
+                if rng.random() < 0.4 and not deny:
+                    # the tree-level integrity check (directory object with all it lists)
+                    from dvc_data.hashfile import check as tree_check
+
+                    res.count("tree_level_checks")
+                    fv_ = {v for v in victims if not v.endswith(DIR_SUFFIX)}
+                    # (re-tamper: the per-object checks above have removed the victims)
+                    for v in sorted(fv_):
+                        if gone(v):
+                            os.makedirs(os.path.dirname(objs[v]), exist_ok=True)
+                            with open(objs[v], "wb") as f:
+                                f.write(newbytes.get(v, b"tampered again"))
+                            os.chmod(objs[v], 0o644)
+                    if fv_ and not any(v.endswith(DIR_SUFFIX) for v in victims):
+                        try:
+                            tree_check(odb, loaded_before)
+                            res.violation(f"corrupt-object-passed-check/tree-level/{how}", "the tree-level check returned normally although a listed object is tampered", case=case, detail=cfg)
+                        except ObjectFormatError:
+                            pass
+                        except FileNotFoundError:
+                            pass
+                        # (the check stops at the first object it rejects: that one at least is gone)
+                        still = [v for v in sorted(fv_) if not gone(v) and H("md5", file_bytes(objs[v])) != v]
+                        if len(still) == len(fv_):
+                            res.violation("corrupt-object-not-removed/tree-level", f"every tampered object ({still[:2]}) is still in the store after the tree-level check", case=case, detail=cfg)
                 for o in intact:
                     try:
                         odb.check(o)
